@@ -43,7 +43,11 @@ TLists == {<<T("fmap", <<(<<fA, <<x1>>>>)>>, <<>>, <<>>, FALSE, All)>>,
            <<T("regex", <<>>, <<105,103,110,111,114,101,95,99,97,115,101,95,102,108,97,103>>, <<>>, FALSE, All)>>,          \* ignore_case_flag
            <<T("hashes", <<(<<(<<77,68,53>>), <<>>>>), (<<(<<83,72,65,49>>), <<>>>>)>>, <<70,105,108,101>>, <<>>, FALSE, All)>>,
            <<T("fmap", <<(<<fA, <<x1>>>>), (<<(<<102,76>>), <<x1>>>>), (<<(<<103,56>>), <<x2>>>>)>>, <<>>, <<>>, TRUE, All)>>,     \* one-element target lists
-           <<T("fmap", <<(<<(<<102,82>>), <<x1>>>>), (<<(<<102,90>>), <<x1>>>>), (<<fA, <<(<<102,66>>)>>>>)>>, <<>>, <<>>, FALSE, All)>>}  \* two fields onto one name
+           <<T("fmap", <<(<<(<<102,82>>), <<x1>>>>), (<<(<<102,90>>), <<x1>>>>), (<<fA, <<(<<102,66>>)>>>>)>>, <<>>, <<>>, FALSE, All)>>,  \* two fields onto one name
+           \* keywords and referenced fields mapped onto ONE-ELEMENT target lists / plain targets (the values change, not only the field)
+           <<T("fmap", <<(<<(<<>>), <<x1>>>>)>>, <<>>, <<>>, TRUE, All)>>,
+           <<T("fmap", <<(<<(<<111,116,104,101,114>>), <<x1>>>>), (<<(<<103>>), <<x2>>>>)>>, <<>>, <<>>, TRUE, All)>>,
+           <<T("fmap", <<(<<(<<111,116,104,101,114>>), <<x1>>>>), (<<(<<103>>), <<x2>>>>)>>, <<>>, <<>>, FALSE, All)>>}
 Cases == {[kind |-> "rule", doc |-> Doc(Pool[a], c), Ts |-> <<>>] : a \in 1..Len(Pool), c \in {<<N_sel1>>, <<N_sel1, C_notsel1>>}}
          \cup {[kind |-> "rule", doc |-> Doc(ValBody(s, ch), <<N_sel1>>), Ts |-> <<>>] :
                  s \in SeqsUpTo(Alpha, IF Quick THEN 3 ELSE 4), ch \in Chains}
